@@ -261,7 +261,12 @@ func (r *Runner) NextCid(prefix string) string {
 	r.mu.Lock()
 	defer r.mu.Unlock()
 	r.cidSeq++
-	return fmt.Sprintf("%s-%d-%d", prefix, os.Getpid(), r.cidSeq)
+	// the form real clients use: a GUID in braces (the prefix, the driver process and a sequence number are in it)
+	pf := uint32(0)
+	for _, c := range []byte(prefix) {
+		pf = pf<<8 | uint32(c)
+	}
+	return fmt.Sprintf("{%08X-%04X-4000-8000-%012X}", pf, os.Getpid()&0xffff, r.cidSeq)
 }
 
 // Conc concretises a symbol sequence.
